@@ -10,7 +10,7 @@ CLAIMED = {
          "Lean theorem over hand-written codec model + differential correspondence with the Go encoder + spec oracle on implementation output", "5 C01"),
  "C17": ("proof", "Lean: constructors yield populated values (C17_ctor_valid) and the wire fields are exactly the populated leaves in template order; correspondence of encoder model and real ToBytes; the generator's *intended* population (computed without the library) is compared with the library's view and with the fields on the wire (spec fieldsOK). Known finding: trailer fields are never serialized.",
          "Lean theorems over codec model + correspondence + independent population shadow and spec oracle", "5 C17"),
- "C02": ("proof", "Lean round-trip lemmas for values and the scan lemma; decoder model = real Unmarshal on serialized random populations (adversarial values), plus go-side oracle parsed = intended and re-serialisation byte-identical, strict and non-strict.",
+ "C02": ("proof", "Lean: parse(serialize m) = m and byte-exact re-serialisation for templates with groups nested to any depth (C02_roundtrip, C02_reserialize) through a field-level refinement of the byte-scanning decoder; values: every int/uint64/bool/string, every UTC instant at ms precision (C02_time_values), every plain decimal rendering of a finite float64 (C02_float_values), every value the decoder itself stores (C02_decoded_values). Decoder model = real Unmarshal on serialized random populations (adversarial values); value codec model = real FromBytes/ToBytes value by value (incl. hex floats, underscores, damaged times); go-side oracle parsed = intended and re-serialisation byte-identical, strict and non-strict.",
          "Lean theorems over decoder model + differential correspondence + round-trip oracle", "5 C02"),
  "C03": ("proof", "Lean: validateRaw model accepts only integrity-correct strings (C03_sound); implementation checked on the exhaustive single-byte damage neighbourhood (all substitutions, insertions, deletions, prefixes) of generated messages and on arbitrary framed bodies, with spec integrityOK evaluated on every accepted string. Known finding: NUL inserted in the BeginString value.",
          "Lean theorem over validateRaw model + exhaustive damage enumeration on the implementation + correspondence", "5 C03"),
@@ -30,7 +30,7 @@ CLAIMED = {
          "Lean theorems over session model + correspondence + wall-clock oracle for Stop", "5 C15"),
  "C16": ("proof", "Lean theorems: every admin kind, unparsable or not permitted in the state, yields exactly one Reject (by sequence number, or naming tag 34) and leaves loggedOn/settings/timers/cancellation untouched; correspondence with damaged messages in every state.",
          "Lean theorems over session model + correspondence + reject oracle", "5 C16"),
- "C19": ("proof", "Lean: call log of DefaultHandler.send = all-types handlers then type handlers in registration order up to the first refusal; any refusal or ToBytes error => nothing enqueued; the save handler registered first runs first and its failure stops the send; inbound: all-types then own-type; session level: every numbered message is in the store under its own number (C19_saved, all histories). Correspondence with the real DefaultHandler / Session incl. failing store.",
+ "C19": ("proof", "Lean: call log of DefaultHandler.send = all-types handlers then type handlers in registration order up to the first refusal; any refusal or ToBytes error => nothing enqueued; the save handler registered first runs first and its failure stops the send; inbound: all-types then own-type; handlers that modify the message: what is transmitted is the serialization of the message as the last handler left it and handler k sees what handlers 0..k-1 made of it (C19_transmits_completed, C19_seen); session level: every numbered message is in the store under its own number (C19_saved, all histories). Correspondence with the real DefaultHandler / Session incl. failing store.",
          "Lean theorems over pool model + session store-trace + correspondence + store/handler oracles", "5 C19"),
  "C05": ("proof", "Lean: for every schedule of any number of concurrent sends running lock/fetch-add/enqueue/unlock the enqueued numbers are c0+1,c0+2,... (C05_consecutive); Session.send is shown to be that program by facts regenerated from the source on every run (C05_generated, decide); session model: numbering continues from the stored counter and every message carries the current identifiers (all histories). Concurrent stress on the real Session with an independent wire tokenizer as failing-schedule search.",
          "Lean theorem over all schedules + source-regenerated path facts + session trace invariant + concurrent stress search", "5 C05"),
@@ -40,11 +40,11 @@ CLAIMED = {
          "Lean theorems over reader state machine and FIFO pipeline + regenerated channel facts + transport correspondence", "5 C04"),
  "C13": ("proof", "Lean: generic theorem that a passing reachable-state check implies every reachable state without a successor has all goroutines exited; kernel evaluation (decide +kernel) of the check on the hand-written blocking structures of the accepting side (all causes) and initiating side; the structures are tied to /repo by the inventory of blocking operations regenerated on every run (C13_generated). Known finding: on the initiating side the handler context is not cancelled when the connection ends (forwarder can stay in ServeIncoming, later sends block). Fault-injection harness as failing-schedule search.",
          "Lean reachability/closure check with soundness theorem + regenerated blocking inventory + fault-injection search", "5 C13"),
- "C08": ("proof", "Lean: for every sequence of outbound refreshes and polls of the heartbeat timer (timeout T, period T/10) the silence since the last outbound message stays below T + T/10 (C08_upper) and the timer emits only at a poll at least T after it (C08_lower); frequency 10 and the timer's construction expression are regenerated from the source. Wall-clock behaviour (ticker, scheduler) is measured against the model with stated slack, not proved.",
+ "C08": ("proof", "Lean: for every sequence of outbound refreshes and polls of the heartbeat timer (timeout T, period T/10) the silence since the last outbound message stays below T + T/10 (C08_upper) and the timer emits only at a poll at least T after it (C08_lower); frequency 10, the polling period and the timers' construction expressions are regenerated from the source in a canonical form (locals inlined). Wall-clock behaviour (ticker, scheduler) is measured against the model with stated slack, not proved.",
          "Lean invariant over timer model + source-regenerated constants + real-time validation", "5 C08"),
- "C09": ("proof", "Lean: timeout N + max(N/20,1) (formula text tied to source); no expiry while inbound gaps <= N (C09_live); expiry within T'+P of silence; session model: first expiry => one TestRequest and probing state, expiry while probing => disconnect event + context cancelled + handler stopped, any inbound message while probing cancels it. Real-time scenarios at N = 1 s validate the timing.",
+ "C09": ("proof", "Lean: timeout N + max(N/20,1) (formula regenerated from the source in canonical form); no expiry while inbound gaps <= N (C09_live); expiry within T'+P of silence; session model: first expiry => one TestRequest and probing state, expiry while probing => disconnect event + context cancelled + handler stopped, any inbound message while probing cancels it. Real-time scenarios at N = 1 s validate the timing.",
          "Lean theorems over timer + session model + source-regenerated formula + real-time scenarios", "5 C09"),
- "C12": ("proof", "Lean: in the abstract generator every accessor i reads/writes constructor slot i of its own member (excluded framing fields skipped), constructor items are keyed by the member's own Field constant, arguments are exactly the required members in order, Go types follow the type mapping, constants equal the schema's numbers / message types, duplicates are rejected. The real generator's emitted files are abstracted with go/parser and compared with the model on the shipped schemas and seeded mutations; compile, determinism, directory-independence and reference-package oracles. Known finding: one Go type per group name.",
+ "C12": ("proof", "Lean: in the abstract generator every accessor i reads/writes constructor slot i of its own member (excluded framing fields skipped), constructor items are keyed by the member's own Field constant, arguments are exactly the required members in order, Go types follow the type mapping, constants equal the schema's numbers / message types, duplicates are rejected. The real generator's emitted files are abstracted with go/parser and compared with the model on the shipped schemas and seeded mutations; compile, determinism, directory-independence and reference-package oracles; the command cmd/fixgen is built and run end to end (relative, nested, absolute and oddly named output directories) and the schema files are re-read token by token and compared with what the generator read. Known finding: one Go type per group name.",
          "Lean theorems over abstract generator + declaration-level correspondence with the real generator + compile/determinism/reference oracles", "5 C12"),
 }
 NOT_YET = {}
